@@ -68,6 +68,9 @@ type c13Case struct {
 	Alloc    uint64  `json:"alloc,omitempty"`    // bytes allocated by BuildStaticWeightList (bswl cases)
 	LimitMB  int     `json:"limit_mb,omitempty"` // run alone in a child with this address-space limit
 	Class    string  `json:"class"`
+	// manager cases (kind mgr-conhash / mgr-modhash): registry answers in order; Ops[0] is the selection run
+	Answers   [][]c14MgrEp `json:"answers,omitempty"`
+	Installed []string     `json:"installed,omitempty"` // hosts of activeEp after the last refresh, in order
 }
 
 func c13NewSelector(kind string, weighted bool) selector.Selector {
@@ -239,6 +242,9 @@ func c13Run(c *c13Case) (fs []Failure) {
 	}()
 	if c.Kind == "bswl" {
 		return c13RunBswl(c)
+	}
+	if strings.HasPrefix(c.Kind, "mgr-") {
+		return c14MgrRunCase(c)
 	}
 	s := c13NewSelector(c.Kind, c.Weighted)
 	abs := &c13AbsSet{}
@@ -436,7 +442,10 @@ func c13Coq(c *c13Case) string {
 		for i, x := range c.BswlObs {
 			p[i] = fmt.Sprint(x)
 		}
-		return fmt.Sprintf("inr (%s, [%s])", coqEps(c.Bswl), strings.Join(p, "; "))
+		return fmt.Sprintf("inl (inr (%s, [%s]))", coqEps(c.Bswl), strings.Join(p, "; "))
+	}
+	if strings.HasPrefix(c.Kind, "mgr-") {
+		return c14MgrCoq(c)
 	}
 	var ops []string
 	for _, o := range c.Ops {
@@ -463,7 +472,7 @@ func c13Coq(c *c13Case) string {
 			ops = append(ops, fmt.Sprintf("OSelRun [%s] [%s]", strings.Join(cs, "; "), strings.Join(os, "; ")))
 		}
 	}
-	return fmt.Sprintf("inl (%s, %s, %s, [%s])", c13KindCoq[c.Kind], coqBool(c.Weighted), c13PointsTable(c), strings.Join(ops, ";\n   "))
+	return fmt.Sprintf("inl (inl (%s, %s, %s, [%s]))", c13KindCoq[c.Kind], coqBool(c.Weighted), c13PointsTable(c), strings.Join(ops, ";\n   "))
 }
 
 // ---------- generators ----------
